@@ -390,9 +390,6 @@ def check_map(W, radius_l, noise, seq, ctx, history=True):
 
 
 def replay(case, ctx):
-    if case["op"] == "shard":
-        run_shard(case["shard"], ctx)
-        return
     W = World(case["variant"], case["net"], case["drop"], case["orient"], tuple(case["res"]) if case["res"] else None)
     check_map(W, case["radius"], case["noise"], [tuple(p) for p in case["seq"]], ctx)
 
@@ -417,6 +414,7 @@ def bounds(tier, variant):
     if tier == "thorough":
         b["sub_networks"] = "every network with one edge deleted (12 + 12 + 8)"
         b["gps_noise"] = [50, 3]
+        b["other_variants"] = "the quick space of the three other alphabet variants is enumerated as well"
     return b
 
 
@@ -432,8 +430,17 @@ def _alphabets(name):
 
 
 def plan(tier, variant):
+    if tier == "quick":
+        return _plan_variant(variant, False)
+    sh = _plan_variant(variant, True)
+    for v in range(N_VARIANTS):
+        if v != variant:
+            sh += _plan_variant(v, False)
+    return sh
+
+
+def _plan_variant(variant, deep):
     sh = []
-    deep = tier == "thorough"
     res_list = alpha.order(variant, list(range(len(RESOLUTIONS))))
     rad_list = alpha.order(variant, list(range(len(RADII))))
     for name in ("oblique", "skew", "grid"):
@@ -493,5 +500,6 @@ def run_shard(shard, ctx):
         if n == 11:
             ctx.sample(W.case(radius, shard["noise"], seq))
     if fingerprint(W.net) != W.fp:
-        ctx.violation("mapOnNetwork/network-modified", {"op": "shard", "shard": shard},
-                      "edges, prepared distances or index grid changed by the calls of this shard")
+        # not part of C10: it only invalidates the harness' reuse of one Network object -> machinery error, never a verdict
+        raise RuntimeError("harness assumption broken: mapOnNetwork changed the network (edges, prepared distances or "
+                           "index grid) in shard %r" % (shard,))
